@@ -46,9 +46,11 @@ for w in range(J):
     os.makedirs('/tmp/rc/cache-%d' % w, exist_ok=True)
 out = {}
 with concurrent.futures.ThreadPoolExecutor(max_workers=J) as ex:
-    for sid, prop, st, rules in ex.map(one, items):
+    futs = [ex.submit(one, it) for it in items]
+    for fu in concurrent.futures.as_completed(futs):       # results as they complete: a few seeds (loops in shared helpers) take very long
+        sid, prop, st, rules = fu.result()
         out[sid] = {'check': prop, 'status': st, 'rules': rules}
         print(sid, prop, st, rules, flush=True)
-json.dump(out, open(os.path.join(V, 'seeded', 'recheck.json'), 'w'), indent=1, sort_keys=True)
+        json.dump(out, open(os.path.join(V, 'seeded', 'recheck.json'), 'w'), indent=1, sort_keys=True)
 bad = [k for k, v in out.items() if v['status'] != 'reported']
 print('rechecked %d; not reported any more: %s' % (len(out), bad))
